@@ -1,6 +1,7 @@
 package main
 
 import (
+	"golang.org/x/tools/go/ssa"
 	"flag"
 	"fmt"
 	"os"
@@ -78,6 +79,25 @@ func cmdFunc(args []string) {
 	bad := 0
 	for _, k := range keys {
 		c := cf.Funcs[k]
+		var fn *ssa.Function
+		if c == nil {
+			// an implementation checked against an interface contract?
+			for _, ak := range sortedKeys(cf.Funcs) {
+				ac := cf.Funcs[ak]
+				if !ac.Abstract || !ac.Impls {
+					continue
+				}
+				impls, _, _ := w.implementations(ac)
+				for _, im := range impls {
+					if ipkg, ikey := contractKey(im); ikey == k {
+						cc := *ac
+						cc.Pkg, cc.Key, cc.Abstract, cc.Impls = ipkg, ikey, false, false
+						cc.Aliases = append([]string{"self"}, ac.ParamNames...)
+						c, fn = &cc, im
+					}
+				}
+			}
+		}
 		if c == nil {
 			fmt.Fprintln(os.Stderr, "no contract", k)
 			os.Exit(2)
@@ -85,7 +105,9 @@ func cmdFunc(args []string) {
 		if c.Abstract || c.Trusted || (c.Inline && len(keys) > 1) {
 			continue
 		}
-		fn := w.findFunc(rel, k)
+		if fn == nil {
+			fn = w.findFunc(rel, k)
+		}
 		if fn == nil {
 			fmt.Fprintln(os.Stderr, "no function", k)
 			bad++
